@@ -51,6 +51,8 @@ class World:
         self.reset(epoch=int(os.environ.get('VERIF_EPOCH', '1')), file=os.environ.get('VERIF_WORLD_FILE') or None,
                    faults=[int(x) for x in os.environ.get('VERIF_FAULTS', '').split(',') if x])
         self.die = frozenset(int(x) for x in os.environ.get('VERIF_DIE', '').split(',') if x)
+        if os.environ.get('VERIF_EMIT'):
+            self.emit = {int(k): v for k, v in json.loads(os.environ['VERIF_EMIT']).items()}
 
     def reset(self, *, epoch: int = 1, faults=(), file: str | None = None, emit=None, on_run=None, fault_exc: str = 'boom'):
         self.fault_exc = fault_exc            # 'boom': an Exception subclass; 'exit': SystemExit (a BaseException that is no Exception)
